@@ -204,6 +204,8 @@ class Contract:
     call: Optional[Callable] = None         # (inputs) -> result of the real function (mutates inputs)
     assumptions: list = field(default_factory=list)  # free-text assumptions this contract rests on
     opaque: dict = field(default_factory=dict)  # assumed contracts of external callables: name -> Contract
+    defaults: dict = field(default_factory=dict)    # default values of trailing parameters (read from the real `def`, see
+                                                    # pyvc.extract.real_defaults): filled in when a call omits them
     npscalars: bool = False                 # interpreted (not njit) code: arithmetic on array elements that were not passed
                                             # through int() is numpy scalar arithmetic in the array's dtype (it wraps): every
                                             # such +, -, * gets a range obligation
